@@ -1818,3 +1818,7 @@ mod tests {
         assert!(server_res.is_err());
     }
 }
+
+#[cfg(all(test, pendulum_project_ntpd_rs_verif))]
+#[path = "/verif/harness/ntp_proto/probe_nts.rs"]
+pub(crate) mod verif_probe;
